@@ -90,6 +90,10 @@ class PacketPump:
             try:
                 # Deliver the packet to the sink
                 self.sink.on_packet(await self.reader.next_packet())
+            except asyncio.IncompleteReadError:
+                # End of the stream: there is nothing more to pump
+                logger.debug('end of stream')
+                return
             except Exception:
                 logger.exception('!!!')
 
